@@ -246,9 +246,11 @@ func codecFor(m *rec.Rec) (*pktCodec, error) {
 			return nil, err
 		}
 		read := func(d *protocol.DHCP) ([]byte, int, error) {
-			// first an encode of an equal message into a destination that is too short (a caller's mistake that must
-			// stay without consequence for later encodes), then the real one
-			if twin, terr := lib.BuildDHCP(m); terr == nil {
+			// first an encode of ANOTHER message into a destination that is too short (a caller's mistake that must
+			// stay without consequence for later encodes: whatever the encoder keeps between calls, nothing of the
+			// other message may show up), then the real one
+			other := m.Clone().Set("xid", m.U("xid")^0x5a5a5a5a).Set("secs", m.U("secs")^0xffff).SetB("sname", bytes.Repeat([]byte{0xd7}, 64))
+			if twin, terr := lib.BuildDHCP(other); terr == nil {
 				twin.Read(make([]byte, 100+int(m.U("xid")%150)))
 			}
 			buf := make([]byte, 4096)
